@@ -107,3 +107,33 @@ Proof.
   - subst items. apply Permutation_nil in P. subst. destruct H' as [[] _].
   - reflexivity.
 Qed.
+
+(* a caller that joins a running lookup is handed what arrived before it asked (in whatever order the node kept it)
+   and then the rest as it arrives: it returns what the first caller returns *)
+Theorem joiner_agrees before before' after :
+  Permutation before before' -> most_recent (before' ++ after) = most_recent (before ++ after).
+Proof. intros P. apply most_recent_perm_invariant. apply Permutation_app_tail. now apply Permutation_sym. Qed.
+
+(* a caller that misses part of what the lookup delivered can only fall short: what it returns is never above what
+   the full stream gives, and if the maximum is among what it was handed, it returns it *)
+Theorem partial_stream_never_above seen missed r :
+  most_recent seen = Some r ->
+  match most_recent (seen ++ missed) with Some full => le_item r full | None => False end.
+Proof.
+  intros H. pose proof (most_recent_is_max seen) as Hs. rewrite H in Hs. destruct Hs as [Hin _].
+  pose proof (most_recent_is_max (seen ++ missed)) as Hf.
+  destruct (most_recent (seen ++ missed)) as [f|].
+  - destruct Hf as [_ Hmax]. apply Hmax. apply in_or_app. now left.
+  - destruct seen; [contradiction|discriminate Hf].
+Qed.
+
+Theorem maximum_handed_over_is_returned seen missed full :
+  most_recent (seen ++ missed) = Some full -> In full seen -> most_recent seen = Some full.
+Proof.
+  intros H Hin. pose proof (most_recent_is_max (seen ++ missed)) as Hf. rewrite H in Hf. destruct Hf as [_ Hmax].
+  pose proof (most_recent_is_max seen) as Hs. destruct (most_recent seen) as [r|].
+  - destruct Hs as [Hr Hm]. f_equal. apply le_item_antisym.
+    + apply Hmax. apply in_or_app. now left.
+    + now apply Hm.
+  - subst seen. contradiction.
+Qed.
